@@ -9,7 +9,8 @@ from ..val import veq, clone
 
 ID = 'C12'
 NEED_BINS = False
-SIZES = {'quick': 8000, 'thorough': 300000}
+SIZES = {'quick': 8000, 'thorough': 2000000}
+REQUIRED_EVENTS = ['unrolled_agreed', 'bad_counts_rejected']
 RULE = ('templates with $repeat at document level (map and list form), as list entries and as map entries with index-dependent keys, '
         'counts 0-5, named counts (1-3 names, values 0-3), nested repeats (inner shadows outer), a child layer overriding the count, and '
         'non-integer counts. The template holds tokens where the index is used (whole value, interpolation, key); D renders them as '
